@@ -399,7 +399,7 @@ class InterpAkima(InterpAlgorithm):
 
         bpos = np.atleast_1d((m2 * w2 + m3 * w31) / (w2 + w31))
         if compute_local_train:
-            if len(m2.shape) > 1:
+            if dm3_dv.ndim > 1:
 
                 w2n = w2[..., np.newaxis]
                 w31n = w31[..., np.newaxis]
@@ -445,7 +445,7 @@ class InterpAkima(InterpAlgorithm):
 
         bp1pos = np.atleast_1d((m3 * w32 + m4 * w4) / (w32 + w4))
         if compute_local_train:
-            if len(m2.shape) > 1:
+            if dm3_dv.ndim > 1:
 
                 w32n = w32[..., np.newaxis]
                 w4n = w4[..., np.newaxis]
@@ -628,7 +628,11 @@ class InterpAkima(InterpAlgorithm):
                 if self._compute_d_dx:
                     db[jj1] = dbpos[jj1]
                 if self._compute_d_dvalues:
-                    db_dv[jj1] = dbpos_dv[jj1]
+                    if len(val3.shape) == 0:
+                        if len(jj1[0]) > 0:
+                            db_dv[:] = dbpos_dv
+                    else:
+                        db_dv[jj1] = dbpos_dv[jj1]
 
             if delta_x > 0:
                 if self._compute_d_dx:
@@ -691,7 +695,11 @@ class InterpAkima(InterpAlgorithm):
                 if self._compute_d_dx:
                     dbp1[jj2] = dbp1pos[jj2]
                 if self._compute_d_dvalues:
-                    dbp1_dv[jj2] = dbp1pos_dv[jj2]
+                    if len(val3.shape) == 0:
+                        if len(jj2[0]) > 0:
+                            dbp1_dv[:] = dbp1pos_dv
+                    else:
+                        dbp1_dv[jj2] = dbp1pos_dv[jj2]
 
             if extrap == 0:
                 if self._compute_d_dx:
